@@ -154,6 +154,9 @@ func sweep(pos []string, opts map[string]string) int {
 							sum[k].ex, sum[k].seed, sum[k].steps, sum[k].prof, sum[k].idx = v, r.Cfg.Seed, r.Res.Steps, r.Cfg.Profile, r.Tag
 						}
 						sum[k].count++
+						if opts["list"] != "" && strings.Contains(k, opts["list"]) {
+							fmt.Printf("LIST %s idx %s steps %d\n", k, r.Tag, r.Res.Steps)
+						}
 					}
 				}
 				if wo.crashed {
